@@ -32,8 +32,10 @@ func NewE2E(peers ...string) *E2E {
 	e.Ctx, e.Cancel = context.WithCancel(context.Background())
 	le := logrus.New()
 	le.SetOutput(io.Discard)
-	bo := &backoff.Backoff{BackoffKind: backoff.BackoffKind_BackoffKind_CONSTANT, Constant: &backoff.Constant{Interval: 1000}}
-	for _, p := range peers {
+	for i, p := range peers {
+		// distinct, incommensurate back-off per client: timers that expire at the
+		// same virtual instant are ordered randomly by the synctest runtime.
+		bo := &backoff.Backoff{BackoffKind: backoff.BackoffKind_BackoffKind_CONSTANT, Constant: &backoff.Constant{Interval: uint32(1000 + 371*i)}}
 		r := &sigfake.Relay{Srv: w.Srv, ID: w.IDs[p], Name: strings.ToLower(p), Tap: e.tapE2E, Calls: w.Calls}
 		c, err := client.NewClient(logrus.NewEntry(le), r, w.Keys[p].Priv, bo)
 		if err != nil {
